@@ -463,7 +463,7 @@ def gen_script(rng, interrupt=None):
 
 def gen_fit(rng, idx, kind="single", real=None, allow_arith=False, plain=False):
     plain = plain or kind == "grid"     # grid searches use plain model shapes (their cells inherit the shape)
-    tag = rng.choice([None, "t1", "t1", "t2", "data_7"])
+    tag = rng.choice([None, "t1", "t1", "t2", "data_7", ""])       # '' is a legal tag: falsy but not None
     prefix = rng.choice([None, "pp", "pp", "pp/qq"])
     grid = None
     need_shared = 0
@@ -646,6 +646,22 @@ def gen_settings(rng, classes, per_class):
             cases.append({"kind": "settings", "cls": cls, "kwargs": kw,
                           "name": rng.choice(["n", "fit_a", "x1"]), "tag": rng.choice([None, "t1", "data_7"]),
                           "prefix": rng.choice([None, "pp", "pp/qq"])})
+        # unusual but legal values, for EVERY class in every run: the empty tag / name / prefix, a tag equal to the
+        # name, settings that are zero / negative / huge / False (falsy values must be persisted and hashed too)
+        for k, (name, tag, prefix) in enumerate([("n", "", None), ("", "", ""), ("x", "x", "x/x"), ("n", None, "a.b/c.d")]):
+            kw = dict(rng.choice(SETTINGS_KW.get(cls, [{}])))
+            for key in sorted(kw):
+                v = kw[key]
+                if isinstance(v, bool):
+                    kw[key] = rng.choice([False, True])
+                elif isinstance(v, int):
+                    kw[key] = rng.choice([0, -1, 10 ** 12, v])
+                elif isinstance(v, float):
+                    kw[key] = rng.choice([0.0, -0.5, 1e300, v])
+            if k % 2 == 1:
+                kw["iterations_per_update"] = rng.choice([0, -1, 10 ** 12])
+            cases.append({"kind": "settings", "cls": cls, "kwargs": kw, "name": name, "tag": tag, "prefix": prefix,
+                          "unusual": True})
     return cases
 
 
@@ -719,6 +735,34 @@ def gen_cases(ctx, classes):
         f["scripts"][0]["interrupt"] = None
         f["n_analyses"] = 1
         scen.append({"kind": "scenario", "flavour": "fits", "fits": [f, g], "completed_only": False, "shape": "info-values"})
+    # (1h) UNUSUAL BUT LEGAL VALUES of every field that enters the identifier, the folder location or the loaded row,
+    #      in every run: the empty tag (falsy, not None) with and without prefix, an empty name / prefix, a tag equal
+    #      to the name and the prefix, tags that look like other values ('None', '0', ' '), dotted / deep prefixes, info
+    #      {} / None -- each beside an ordinary fit; and a grid search under the empty tag
+    unusual = [dict(tag="", prefix=None), dict(tag="", prefix="pp/qq"), dict(tag="", name="", prefix=""),
+               dict(tag="x", name="x", prefix="x"), dict(tag=rng.choice(["None", "0", " ", "False"]), prefix=""),
+               dict(tag=None, name="", prefix=rng.choice(["a.b/c.d/e", "p.q"])), dict(tag="", prefix="a.b", info={}),
+               dict(tag="", prefix=None, info=None), dict(tag="t1", name="t1", prefix=None, info={})]
+    rng.shuffle(unusual[1:])
+    groups = [unusual[:3], unusual[3:6], unusual[6:]] if thorough else [unusual[:2], unusual[2:5]]
+    for grp in groups:
+        fits = []
+        for i, over in enumerate(grp):
+            f = gen_fit(rng, i, plain=True)
+            f["scripts"][0]["interrupt"] = None if i == 0 else f["scripts"][0]["interrupt"]
+            f["n_analyses"] = 1
+            if f["layout"] in ("zip+partial", "zip+stale"):
+                f["layout"] = "both"
+                f.pop("delete", None)
+            f.update(over)
+            fits.append(f)
+        fits.append(gen_fit(rng, len(fits), plain=True))
+        scen.append({"kind": "scenario", "flavour": "fits", "fits": fits, "completed_only": False, "shape": "unusual-values"})
+    g = gen_fit(rng, 0, kind="grid")
+    g["tag"] = ""
+    h = gen_fit(rng, 1, plain=True)
+    h.update({"tag": "", "prefix": g["prefix"]})
+    scen.append({"kind": "scenario", "flavour": "dir", "fits": [g, h], "completed_only": False, "shape": "unusual-values-grid"})
     # (1f) shapes of the model's branches that random generation does not reach
     #  - a fit WITH analyses children lying in the directory twice: clean IntegrityError, nothing committed
     f = gen_fit(rng, 0, plain=True)
@@ -1097,8 +1141,14 @@ def c_spec(s):
         clist([c_strs(a) for a in s["analyses"]]))
 
 
+def path_levels(prefix, tag, name):
+    """folder levels above the identifier: empty components (prefix part, tag '', name '') add no level"""
+    pre = prefix.split("/") if isinstance(prefix, str) else list(prefix or [])
+    return [x for x in pre + ([tag] if tag is not None else []) + [name] if x]
+
+
 def spec_path(s):
-    return s["prefix"] + ([s["tag"]] if s["tag"] is not None else []) + [s["name"], s["id"]]
+    return path_levels(s["prefix"], s["tag"], s["name"]) + [s["id"]]
 
 
 def c_paths(paths):
@@ -1136,8 +1186,7 @@ def coq_case(c, r):
         for i, (f, rec) in enumerate(zip(c["fits"], r["fits"])):
             if rec.get("exc") or not rec.get("identifier"):
                 return None, "fit-not-written"
-            pre = f["prefix"].split("/") if f.get("prefix") else []
-            rel = "/".join(pre + ([f["tag"]] if f.get("tag") is not None else []) + [f["name"], rec["identifier"]])
+            rel = "/".join(path_levels(f.get("prefix"), f.get("tag"), f["name"]) + [rec["identifier"]])
             e = entries.get(rel)
             s = spec_of(f, rec, e)
             specs.append(s)
@@ -1172,6 +1221,78 @@ def coq_case(c, r):
                                        cbool(BEST_FIT_VARIANT["v"] == "skips-none")), None
 
 
+def ident_sides(c, r):
+    """per scripted single fit of a scenario (names unique): the identifier on its three sides, found by the fit's
+    NAME, never by an id -- folder name the directory route wrote, id of the database fit loaded from it, id of the
+    same fit written through a session.  None for a side that does not exist in this scenario."""
+    if c["kind"] != "scenario" or c.get("two_dirs") or c.get("copies"):
+        return []
+    names = [f["name"] for f in c["fits"]]
+    idents = [rec.get("identifier") for rec in r["fits"]]     # (two fits written under ONE identifier share one database fit)
+    co = bool(c.get("completed_only", False))
+    sc, dr = r["scrape"], r.get("direct")
+    out = []
+    for k, (f, rec) in enumerate(zip(c["fits"], r["fits"])):
+        if (f["type"] != "single" or f["search"]["cls"] != "Scripted" or f.get("prefit") or names.count(f["name"]) != 1
+                or rec.get("exc") or not rec.get("identifier") or "search_tokens" not in rec or idents.count(rec["identifier"]) != 1
+                or fit_labels(f) & {"model:fixed-component", "model:arith-prior", "info:container-value"}
+                or f.get("layout") in ("zip+partial", "zip+stale")
+                or (co and f["scripts"][0].get("interrupt"))):
+            continue
+        folders = [e["folder"] for e in r["directory"] if e["metadata"] and e["parent_identifier"] is None
+                   and e.get("search_name") == f["name"]]
+        loaded = None if sc.get("exc") else [x["id"] for x in sc.get("fits", []) if not x["is_grid_search"] and x["name"] == f["name"]]
+        session = None
+        # (combined analyses through a session: the rows carry other names -- out of scope, see ctx.assumptions)
+        if dr and f.get("n_analyses", 1) == 1 and not dr.get("exc") and k < len(dr.get("fits_run", [])) and not dr["fits_run"][k].get("skipped") \
+                and not dr["fits_run"][k].get("exc"):
+            session = [x["id"] for x in dr.get("fits", []) if not x["is_grid_search"] and x["name"] == f["name"]]
+        out.append({"fit": f, "rec": rec, "folders": folders, "loaded": loaded, "session": session})
+    return out
+
+
+def md5_tokens(tokens):
+    return hashlib.md5(".".join(tokens).encode("utf-8")).hexdigest()
+
+
+def coq_ident_cases(c, r):
+    """CIdent terms: model tokens (writer / loader side) -> md5 table (oracle) vs the ids found on the three sides"""
+    terms = []
+    for s in ident_sides(c, r):
+        f, rec = s["fit"], s["rec"]
+        if s["loaded"] is None or s["session"] is None:
+            continue
+        sm = rec["search_tokens"] + rec["model_tokens"]
+        cands = [sm, sm + [""]] + ([sm + [f["tag"]]] if f.get("tag") else [])
+        table = clist([cpair(c_strs(t), cstr(md5_tokens(t))) for t in cands])
+        one = lambda l: l[0] if len(l) == 1 else "MISSING" if not l else "AMBIGUOUS"
+        terms.append("CIdent %s %s %s %s %s %s %s" % (c_strs(rec["search_tokens"]), c_strs(rec["model_tokens"]), c_ostr(f.get("tag")),
+                                                    table, cstr(one(s["folders"])), cstr(one(s["loaded"])), cstr(one(s["session"]))))
+    return terms
+
+
+def oracle_ident(c, r):
+    """C11, first clause, stated on names: the fit loaded from a folder carries the folder's name as its id, and the
+    same fit written through a session carries that id too"""
+    errs = []
+    for s in ident_sides(c, r):
+        nm = s["fit"]["name"]
+        if len(s["folders"]) != 1:
+            errs.append("fit %s (name %r, tag %r): %d search folders written under that name" % (s["rec"]["identifier"], nm, s["fit"].get("tag"), len(s["folders"])))
+            continue
+        folder = s["folders"][0]
+        if s["loaded"] is not None and s["loaded"] != [folder]:
+            errs.append("fit %s (name %r, tag %r): loaded from folder %s but the database fit of that name has id %s"
+                        % (folder, nm, s["fit"].get("tag"), folder, ",".join(s["loaded"]) or "(no such fit)"))
+        if s["session"] is not None and s["session"] != [folder]:
+            errs.append("fit %s (name %r, tag %r): written under folder name %s by the directory route but under id %s through a session"
+                        % (folder, nm, s["fit"].get("tag"), folder, ",".join(s["session"]) or "(no such fit)"))
+        if s["loaded"] is not None and s["session"] is not None and s["loaded"] != s["session"]:
+            errs.append("fit %s (name %r, tag %r): loaded id %s differs from the session-written id %s"
+                        % (folder, nm, s["fit"].get("tag"), ",".join(s["loaded"]), ",".join(s["session"])))
+    return errs
+
+
 def coq_disk_case(c, r):
     """CDisk term: archives and folders as they lay on disk before the load, each read on its own"""
     if c["kind"] != "scenario" or "directory_raw" not in r:
@@ -1196,6 +1317,8 @@ def coq_disk_case(c, r):
 def oracle_settings(c, r):
     if r.get("missing"):
         return "search class %s no longer exists" % c["cls"]
+    if r.get("stage") == "construct" and c.get("unusual"):
+        return None     # the class itself rejects the value: not a legal input
     if r.get("stage") != "ok":
         return "%s: search settings cannot be read back (%s at %s: %s)" % (c["cls"], r.get("exc"), r.get("stage"), r.get("msg", "")[:120])
     if r["reload_type"] != c["cls"]:
@@ -1473,7 +1596,9 @@ def run(ctx):
                 "and re-run, harness-side fault injection incl. a kill inside json.dump and an unserialisable info value -- beside healthy fits, "
                 "grid searches with 2 or 4 cells, real search classes, copied folders; one grid search per likelihood profile of its cells in every run: "
                 "best cell exactly 0.0 above negatives / above -inf, 0.0 below a positive, all positive, mixed signs, ties at 0.0 and elsewhere, "
-                "-inf in some / all cells, last cell without samples) written by the "
+                "-inf in some / all cells, last cell without samples; unusual but legal values in every run: unique_tag '' (falsy, not None) "
+                "with / without prefix and under a grid search, name '', prefix '' / dotted / deep, tag = name = prefix, tags 'None' '0' ' ', "
+                "info {} / None; settings cases with tag '' / name '' and zero / negative / huge / False settings for every class) written by the "
                 "real code into one output directory that is then loaded with add_directory(completed_only in {False,True}) and also written "
                 "through a database session. A settings case is non-trivial when it has keywords or a tag; a scenario when its directory holds "
                 ">= 2 fit / grid-search folders. distinct = distinct abstract input")
@@ -1496,6 +1621,10 @@ def run(ctx):
         "session route: the parent row of a fit with combined analyses is compared; its child fits are out of scope (a session "
         "creates one child named 'analyses/analysis_0' with its own identifier, the scraper one '<id>_<i>' per analyses folder); "
         "path_prefix is not compared (a scraped fit has none)",
+        "identifier on its three sides: for every scripted single fit (unique name and identifier in its scenario, one analysis for the "
+        "session side) the folder name, the id of the database fit loaded from it and the id of the fit written through a session are "
+        "looked up BY NAME and must be equal (oracle); the correspondence (CIdent) compares them with md5 of the model's writer / loader "
+        "token lists, md5 being a finite oracle table over the candidate token lists (search+model tokens alone, + '', + tag)",
         "known-finding classes are attributed per oracle message (pattern of the class and, for per-fit messages, the fit carrying the "
         "label); correspondence disagreements are never attributed to a finding",
         "Emcee/Zeus/Nautilus/UltraNest/DynestyDynamic are covered by the settings round trip only (Emcee's fit raises IndexError in "
@@ -1601,7 +1730,9 @@ def run(ctx):
                         ctx.hist("partial_folder_lacks", x)
                 ctx.hist("interrupt", f["scripts"][0].get("interrupt"))
                 ctx.hist("n_analyses", f.get("n_analyses", 1))
-                ctx.hist("tag", "none" if f.get("tag") is None else "set")
+                ctx.hist("tag", "none" if f.get("tag") is None else "empty" if f["tag"] == "" else "set")
+                ctx.hist("name", "empty" if f["name"] == "" else "set")
+                ctx.hist("prefix", "none" if f.get("prefix") is None else "empty" if f["prefix"] == "" else "dotted" if "." in f["prefix"] else "set")
                 ctx.hist("prefit", (f.get("prefit") or {}).get("stage"))
                 ctx.hist("info_kind", "none" if not f.get("info") else (sorted(info_labels(f["info"])) or ["strings"])[0])
                 for lb in sorted(fit_labels(f)):
@@ -1610,6 +1741,8 @@ def run(ctx):
             ctx.hist("folders", len(ro.get("directory", [])))
             ctx.hist("scenario_shape", c.get("shape", "random"))
             msgs = oracle_scenario(c, ro)
+            if not any(m.startswith(("writing fit", "harness:")) for m in msgs):
+                msgs = msgs + [m for m in oracle_ident(c, ro) if m not in msgs]
         for msg in msgs:
             ctx.oracle["failures"] += 1
             ctx.failure("oracle", msg, c, classes=attributable(c, ro, msg), impl=summary(ro))
@@ -1636,6 +1769,14 @@ def run(ctx):
             coq_cases.append(dc)
             coq_idx.append((i, bool(msgs)))
             ctx.hist("disk_view_terms", "CDisk")
+        if c["kind"] == "scenario":
+            try:
+                for t in coq_ident_cases(c, ro):
+                    coq_cases.append(t)
+                    coq_idx.append((i, bool(msgs)))
+                    ctx.hist("ident_terms", "CIdent")
+            except Exception as e:  # noqa
+                ctx.obligation("abstraction-ident:%d" % i, "harness", False, "%s: %s" % (type(e).__name__, e))
         if i % 9 == 0:
             ctx.sample({"case": c if c["kind"] == "settings" else {"kind": "scenario", "flavour": c["flavour"],
                                                                       "fits": [{k: f[k] for k in ("type", "name", "tag", "prefix", "search", "layout", "n_analyses")} for f in c["fits"]]}},
@@ -1689,7 +1830,9 @@ MANIFEST = {
             "to exactly their cells with a maximal-likelihood best fit -- Fit.best_fit as written (partial: every cell holds a likelihood and "
             "one is above -inf; refuted outside), the best_fits() query (exactly the cells of highest likelihood) and the repaired Fit.best_fit "
             "(total), for likelihood keys of every sign --; agreement with the session route; a fit interrupted anywhere inside "
-            "save_all leaves the load unchanged), _refuted witnesses for the two "
+            "save_all leaves the load unchanged; the identifier tokens hashed by the writer (folder name, session id) and by the loader "
+            "(SearchOutput.id) are equal for every tag -- absent, empty, non-empty -- and tell the three apart, the truthy-tag rule is "
+            "refuted on '' and partial off it; empty prefix / tag / name add no folder level), _refuted witnesses for the two "
             "defects of the pinned code, plus vm_compute correspondence with real fits written and loaded by the running code and a "
             "direct property oracle on every generated scenario",
     "note": "Identifier tokens and model (de)serialisation are not re-modelled here (C07/C08): the recomputed identifier of a folder is an "
